@@ -172,6 +172,11 @@ func (x *Exec) havoc(st *State, n ast.Node) {
 	for _, k := range sortedKeys(ms.heap) {
 		x.heapHavoc(st, k)
 	}
+	// ghost state the body may advance
+	if _, ok := st.names["callCount"]; ok {
+		st.names["callCount"] = x.fresh("callCount", SInt)
+		st.names["callSeq"] = x.fresh("callSeq", arraySort(SInt, SInt))
+	}
 }
 
 func (x *Exec) checkInvs(sp *LoopSpec, st *State, kind string, ord int) {
